@@ -16,8 +16,8 @@ def _build_test_binary(ctx, harness_dirs=None, pkg=None, tags="verif", timeout=1
 
 
 CFG = dict(
-    imports=["From Verif.C24 Require Import Model Spec."],
-    checker="check_case",
+    imports=["From Verif.C24 Require Import Model Spec Sender Spec2."],
+    checker="check_case2",
     n=dict(quick=60, thorough=1500),
     shard=15,
     driver_args=lambda ctx, n, seed: ["-test.run", "^TestVerifC24$", "-test.count=1", "-verif.n", n, "-verif.seed", seed],
